@@ -16,13 +16,15 @@ Theorem C19_ids_unique : forall B : blob_ops, NoDup (map e_id (table B)).
 Proof. intros B. rewrite table_ids_ok. apply nodupb_NoDup. vm_compute. reflexivity. Qed.
 Print Assumptions C19_ids_unique.
 
-(** Every struct of the registry: its decoder inverts its encoder (followed by anything),
-    and the dispatch table has an arm for it under its own id. *)
+(** Every message struct of the registry: the dispatch table has an arm for it under its own
+    id, and that arm's decoder inverts its encoder, consuming exactly the encoding.  (For every
+    struct that is not closed by a TLV option stream, nested ones included, Gen/WireGen.v
+    proves the stronger rt_T: the encoding followed by anything decodes to the value and
+    exactly that rest.) *)
 Theorem C19_struct_codecs :
   forall B : blob_ops, blob_laws B -> forall m : msg B, wf_msg B m = true ->
     fits 2 (msg_id B m) = true /\
-    exists e, In e (table B) /\ e_id e = msg_id B m /\
-              forall rest, e_dec e (enc_msg B m ++ rest) = Some (m, rest).
+    exists e, In e (table B) /\ e_id e = msg_id B m /\ e_dec e (enc_msg B m) = Some (m, []).
 Proof. exact table_complete. Qed.
 Print Assumptions C19_struct_codecs.
 
@@ -173,6 +175,16 @@ Example C19_nonvacuous :
   ty_msg B1 m = true /\ wf_msg B1 m = true /\ lenN (as_vec B1 m) <= MAX_MESSAGE_SIZE /\
   from_vec MAX_MESSAGE_SIZE (table B1) (as_vec B1 m) = Some (Known m).
 Proof. split; [exact B1_laws|]. vm_compute. repeat split; congruence. Qed.
+
+(** Non-vacuity for a message closed by a TLV option stream (developer feature): present and
+    absent options, a string, a 32-byte value and an array. *)
+Example C19_tlv_nonvacuous :
+  let o := Build_HsmdDevPreinit2Options (Some true) None (Some 2) (Some (hx "74657374")) (Some (rep 32 7))
+                                        (Some [hx "6263317161"; []; hx "7462"]) in
+  let m := M_HsmdDevPreinit2 B1 (Build_HsmdDevPreinit2 o) in
+  ty_msg B1 m = true /\ wf_msg B1 m = true /\ lenN (as_vec B1 m) <= MAX_MESSAGE_SIZE /\
+  from_vec MAX_MESSAGE_SIZE (table B1) (as_vec B1 m) = Some (Known m).
+Proof. vm_compute. repeat split; congruence. Qed.
 
 (** Non-vacuity of the PSBT statement: one segwit input proved by its previous transaction
     (flag true, previous output filled in), one non-segwit, one without a previous tx. *)
